@@ -99,6 +99,16 @@ def build_theory(quiet=False):
 
 
 def ensure_theory():
+    """(re)build coq/theory if needed; serialised by a file lock so that
+    concurrently running checks do not race on make"""
+    import fcntl
+    os.makedirs(os.path.join(VERIF, '.work'), exist_ok=True)
+    with open(os.path.join(VERIF, '.work', 'theory.lock'), 'w') as lk:
+        fcntl.flock(lk, fcntl.LOCK_EX)
+        _ensure_theory()
+
+
+def _ensure_theory():
     if not theory_built():
         if not build_theory(quiet=True):
             raise RuntimeError('theory build failed')
@@ -111,6 +121,68 @@ def ensure_theory():
                     if not build_theory(quiet=True):
                         raise RuntimeError('theory build failed')
                     break
+
+
+def run_impl(script, cases, nproc=None, hashseeds=None, timeout=1800):
+    """run tools/<script> (under /venv/bin/python with PYTHONPATH=/repo) on the
+    JSON list `cases`, split round-robin over nproc worker processes; each
+    worker reads a JSON list on stdin and writes a JSON list of the same length.
+    hashseeds: optional list of PYTHONHASHSEED values, one per worker."""
+    nproc = nproc or NCPU
+    nproc = max(1, min(nproc, len(cases)))
+    chunks = [cases[i::nproc] for i in range(nproc)]
+    procs = []
+    for wi, ch in enumerate(chunks):
+        env = dict(os.environ, PYTHONPATH=REPO, PYTHONHASHSEED=str(hashseeds[wi % len(hashseeds)] if hashseeds else 0))
+        p = subprocess.Popen([PY, '-W', 'ignore', os.path.join(VERIF, 'tools', script)],
+                             stdin=subprocess.PIPE, stdout=subprocess.PIPE, stderr=subprocess.PIPE,
+                             text=True, env=env, cwd=VERIF)
+        procs.append(p)
+    import threading
+    outs = [None] * nproc
+
+    def feed(i):
+        try:
+            o, e = procs[i].communicate(json.dumps(chunks[i]), timeout=timeout)
+        except subprocess.TimeoutExpired:
+            procs[i].kill()
+            o, e = '', 'timeout'
+        outs[i] = (o, e)
+    ths = [threading.Thread(target=feed, args=(i,)) for i in range(nproc)]
+    for t in ths:
+        t.start()
+    for t in ths:
+        t.join()
+    results = [None] * len(cases)
+    for i in range(nproc):
+        o, e = outs[i]
+        try:
+            rs = json.loads(o)
+            assert len(rs) == len(chunks[i])
+        except Exception:
+            rs = [{'error': 'worker crashed: ' + (e or '')[-400:]}] * len(chunks[i])
+        for j, r in enumerate(rs):
+            results[i + j * nproc] = r
+    return results
+
+
+def qc_lit(x):
+    """Coq literal of a rational (Fraction, int, or 'p/q' string) in QcF"""
+    from fractions import Fraction
+    x = Fraction(x)
+    return '(qc (%d) %d)' % (x.numerator, x.denominator)
+
+
+def parse_eval_list(out):
+    """parse the result of `Eval vm_compute in (l : list nat)` printed by coqc;
+    returns list of ints, or None when absent"""
+    m = re.search(r'=\s*\[(.*?)\]\s*:\s*list nat', out, re.S)
+    if not m:
+        return None
+    body = m.group(1).strip()
+    if not body:
+        return []
+    return [int(x.replace('%nat', '').strip()) for x in body.split(';')]
 
 
 def coqc(workdir, fname, timeout=300, logical='Gen'):
